@@ -21,11 +21,13 @@ def run(ctx):
                 "XtcePacketDefinition.packet_generator. distinct = distinct (kind, read size, prefix, stream, chunks).")
     ctx.assumptions = ["a socket recv() returning b'' means the peer closed (end of stream)",
                        "TLC 1.8 and CommunityModules Json/IOUtils are correct"]
-    consts = {"TrimAt": 5, "DefaultSock": 4, "AsIs": "FALSE", "DataLens": tla_set([1, 2, 3]),
+    consts = {"TrimAt": 5, "DefaultSock": 4, "AsIs": "FALSE", "Eager": "FALSE", "DataLens": tla_set([1, 2, 3]),
               "MaxPackets": 2 if q else 3, "Skips": tla_set([0, 2]),
               "RSizes": tla_set([0, 1, 2, 5, 9]), "GarbageLen": 7 if q else 9, "GarbageAlphabet": "{0, 1, 2}" if q else "{0, 1, 2}",
               "WithCuts": "TRUE"}
     fc.model_check(ctx, consts, need_giveup=True, tag="cuts+garbage")
+    consts3 = dict(consts, Eager="TRUE", MaxPackets=1, GarbageLen=5, RSizes=tla_set([0, 2, 5]))
+    fc.model_check(ctx, consts3, need_giveup=True, tag="eager-policy", extra_actions=["ReadAhead"])
     fc.asis_counterexample(ctx)
     ctx.exhaustive = True
 
